@@ -50,4 +50,16 @@ META = {
  "C10": dict(
   rule="for each of the 39 typed variants other than OPT: 60 (thorough 2000) field tuples (boundary and random values, shared-suffix names, opaque tails of 0..1200 bytes); the library's serialisation compared byte for byte with an independent reference encoder written from the RFCs (harness) and with the Lean RFC schema encoder (spec.rdata), under the IANA code; the reference encoding parsed by the library and compared field by field; plus encodings breaking a structural rule (LOC version, SVCB key order, NSEC window order, inner length overruns) which must be rejected, and the ISDN-without-sub-address encoding of RFC 1183 (known finding)",
   assumptions=STD, timeout=dict(quick=1200, thorough=7200)),
+ "C04": dict(
+  rule="packets as C02 (700 quick / 6000 thorough): both vector-returning entry points walked by an independent RFC 1035 walker (counts = entries written incl. OPT once, no trailing bytes); then every writer configuration: Vec (empty / pre-filled), Cursor<Vec> at offsets 0/2/3/7 over empty, shorter and longer pre-filled storage, Cursor<&mut [u8]> and &mut [u8] of capacities {0,1,11,12,len-1,len,len+1,len+2,len/2} (every capacity 0..len+2 for every 16th packet) and at offsets 2/3/5, plain and compressed; result class, final storage and final position compared with the model and with the bytes of build_bytes_vec* spliced in; distinct = distinct (request, output)",
+  assumptions=STD, timeout=dict(quick=1800, thorough=7200)),
+ "C07": dict(
+  rule="packets as C03 incl. messages crossing 16 KiB and the sweep of a multi-label name across offset 16383/16384: build_bytes_vec_compressed compared byte for byte with the model; every name site located by an independent schema-aware walker in the harness; each pointer checked: strictly backward, target <= 16383, not into the header, expansion = the intended name (from the uncompressed output), none inside no-compress RDATA (SRV NAPTR KX RRSIG NSEC IPSECKEY SVCB HTTPS), repeated compressible names written as exactly two bytes; plus write_compressed_to at stream offsets 2 and 13 must emit the same message",
+  assumptions=STD, timeout=dict(quick=1200, thorough=7200)),
+ "C12": dict(
+  rule="parser-accepted inputs among reference-encoded hostile messages and library-built packets with mostly arbitrary-byte labels and strings (invalid UTF-8, NUL, dots, backslashes, empty and maximal strings): every public observer (Debug/Display of packet, names, labels, records, RDATA, character-strings; clone; into_owned; Hash; ==; is_subdomain_of/without/is_link_local; match_qtype/qclass; TXT attributes/long_attributes/String::try_from; SVCB params) applied to every part under catch_unwind; outcome class compared with the model's observers; for valid UTF-8 the exact Display text; non-trivial = accepted inputs",
+  assumptions=STD + ["panics inside std::fmt and the exact lossy text are outside the model"], timeout=dict(quick=1200, thorough=7200)),
+ "C16": dict(
+  rule="for each of the 43 RDATA kinds 25 (thorough 400) records, each both built from parts and borrowed from a receive buffer: into_owned and clone compared with the original through every accessor (canonical text), ==, both serialisers and Hash; pairs differing only in TTL/cache-flush, and pairs of different records, through == / DefaultHasher / HashSet::contains; questions; names built from parts vs received; InstanceInformation built by inserting the same addresses and ports in different orders; compared with the model's into_owned / hash feeds",
+  assumptions=STD + ["std Hash of slices/Vec/primitive types feeds length prefix and content; DefaultHasher is a function of the feed"], timeout=dict(quick=1200, thorough=7200)),
 }
